@@ -50,11 +50,12 @@ def prepare_sources():
                     shutil.copyfile(lock, dst)
             except OSError:
                 pass
-    gen = sh([sys.executable, os.path.join(VERIF, "tools", "gen_classes.py")])
-    if gen.returncode == 0:
-        p = os.path.join(HARNESS, "src", "spec", "classes_gen.rs")
-        if not os.path.exists(p) or open(p).read() != gen.stdout:
-            open(p, "w").write(gen.stdout)
+    for tool, target in (("gen_classes.py", "classes_gen.rs"), ("gen_consts.py", "consts_gen.rs")):
+        gen = sh([sys.executable, os.path.join(VERIF, "tools", tool)])
+        if gen.returncode == 0:
+            p = os.path.join(HARNESS, "src", "spec", target)
+            if not os.path.exists(p) or open(p).read() != gen.stdout:
+                open(p, "w").write(gen.stdout)
     r = sh([sys.executable, os.path.join(VERIF, "tools", "gen_registry.py"), "--list"])
     if r.returncode != 0:
         raise RuntimeError("gen_registry failed: " + r.stdout)
